@@ -658,10 +658,19 @@ func (tr *trans) applyContract(fc *FuncContract, sig *types.Signature, key strin
 			g := implies(reach, env.elabBool(it.E))
 			// a callee may declare its preconditions to be obligations only for callers that opt in
 			// (e.g. the lock discipline of sync: `opt pre_only_if=locks` / caller `opt locks`)
-			if need := fc.Opts["pre_only_if"]; need == "" || (tr.fc != nil && tr.fc.Opts[need] == "true") {
+			assumed := false
+			if tr.fc != nil {
+				for _, sub := range strings.Split(tr.fc.Opts["assume_pre"], ",") {
+					if sub = strings.TrimSpace(sub); sub != "" && strings.Contains(key, sub) {
+						assumed = true
+						tr.note("preconditions of " + key + " are assumed in " + tr.key + " (opt assume_pre)")
+					}
+				}
+			}
+			if need := fc.Opts["pre_only_if"]; !assumed && (need == "" || (tr.fc != nil && tr.fc.Opts[need] == "true")) {
 				tr.oblige("pre", fmt.Sprintf("%s[%s]@%s", short, label, tr.srcText(pos)), g, pos)
-			} else {
-				tr.note("preconditions of " + key + " are assumed in functions that do not opt in with `opt " + need + "`")
+			} else if !assumed {
+				tr.note("preconditions of " + key + " are assumed in functions that do not opt in with `opt " + fc.Opts["pre_only_if"] + "`")
 			}
 			tr.vc.assume(g)
 		}
